@@ -66,6 +66,8 @@ class Db:
                 r = ("char", "unsigned" if t["is_unsigned"] else "signed" if t["is_signed"] else "")
             else:
                 r = ({2: "float", 3: "double", 4: "bool", 6: "void", 7: "string", 9: "null"}.get(tok, "atomic%d" % tok),)
+        elif t["is_array"]:
+            r = ("array", self.desc(t["wrapped_type"]), t["array_size"])
         elif t["is_wrapped"] and t["is_pointer"]:
             r = ("ptr", self.desc(t["wrapped_type"]))
         elif t["is_wrapped"] and t["is_const"]:
@@ -100,7 +102,11 @@ def ctype_of(d):
     if k == "string":
         return C.c_char_p
     if k == "enum":
-        return C.c_int
+        # the query interface does not tell the underlying type of an enumeration (and reports enumerator values as
+        # int): the two scoped enumerations of the generated header are sized as they are declared there
+        return {"EnC": C.c_byte, "EnL": C.c_longlong}.get(d[1], C.c_int)
+    if k == "array":
+        return C.POINTER(ctype_of(d[1]))
     if k == "ptr":
         inner = d[1][1] if d[1][0] == "const" else d[1]
         if inner[0] == "char":
@@ -115,13 +121,16 @@ def exp_desc(kind, fam, string_opt, ret=False):
     t = {"i8": ("char", "signed"), "u8": ("char", "unsigned"), "i16": ("int", False, "short"), "u16": ("int", True, "short"),
          "i32": ("int", False, ""), "u32": ("int", True, ""), "i64": ("int", False, "longlong"), "u64": ("int", True, "longlong"),
          "long": ("int", False, "long"), "ulong": ("int", True, "long"), "f32": ("float",), "f64": ("double",),
-         "bool": ("bool",), "enum": ("enum", "En"), "void": ("void",)}.get(kind)
+         "bool": ("bool",), "enum": ("enum", "En"), "void": ("void",), "enumC": ("enum", "EnC"), "enumLL": ("enum", "EnL"),
+         "arrI32": ("array", ("int", False, ""), 3), "arrF32": ("array", ("float",), 2)}.get(kind)
     if t:
         return t
     if kind == "cstr":
         return ("string",) if string_opt else ("ptr", ("const", ("char", "")))
-    if kind == "string":
+    if kind in ("string", "strPtr"):
         return ("string",) if string_opt else None
+    if kind == "arrObj":
+        return ("ptr", ("class", "KB_%d" % fam))
     if kind in ("objPtr", "objRef", "objVal"):
         return ("ptr", k0)
     if kind == "constObjRef":
@@ -191,7 +200,8 @@ class Driver:
                     key = "getter" if fk == "getter" else "setter"
                     return [str(el[key])] if el["has_" + key] else []
             return []
-        return [str(x) for x in t["methods"] if self.db.functions[str(x)]["name"] == fn["cname"]]
+        name = "operator []=" if fk == "opIndexRef" else fn["cname"]
+        return [str(x) for x in t["methods"] if self.db.functions[str(x)]["name"] == name]
 
     def expected_params(self, fn, k):
         s = fn["sig"]
@@ -209,6 +219,8 @@ class Driver:
         """parameter names the database must record (the renderer names parameters after position and kind)"""
         s = fn["sig"]
         n = len(s["ps"]) - k
+        if s["fk"] == "opIndexRef":     # the synthesized item-assignment function  operator []=(K i, const int &assign_val)
+            return ["this", "a1_%s" % s["ps"][0], "assign_val"]
         return (["this"] if has_this(s) else []) + ["a%d_%s" % (i + 1, s["ps"][i]) for i in range(n)]
 
     def expected_ret(self, fn):
@@ -311,6 +323,9 @@ class Driver:
             return a.encode("utf-8") if isinstance(a, str) else a
         if k == "ptr":
             return a or None
+        if k == "array":
+            et = ctype_of(d[1])
+            return (et * d[2])(*[x / 8.0 if d[1][0] in ("float", "double") else x for x in a])
         return a
 
     @staticmethod
@@ -385,8 +400,8 @@ class Driver:
                 return self.canon_ret(rdesc, call([handle])), rdesc
         raise DriveError("database has no element %s::%s" % (cxxcls, name))
 
-    def method_get(self, cxxcls, name, handle):
-        """call the published accessor method `name` (no parameters) of class cxxcls"""
+    def method_get(self, cxxcls, name, handle, *args):
+        """call the published accessor method `name` of class cxxcls"""
         key = ("method", cxxcls, name)
         if key not in self.callcache:
             ti, t = self.class_type(cxxcls)
@@ -396,7 +411,7 @@ class Driver:
                 raise DriveError("%s::%s has %d wrappers" % (cxxcls, name, len(ws)))
             self.callcache[key] = self.bind(*ws[0])
         call, rdesc = self.callcache[key]
-        return self.canon_ret(rdesc, call([handle]))
+        return self.canon_ret(rdesc, call([handle] + list(args)))
 
     def read_post(self):
         post = []
@@ -471,11 +486,24 @@ class Driver:
             if fk == "opAsg":
                 return self.find_slot(raw, s["cls"])
             rk = s["ret"]
+            if fk == "setter" and st["data_kind"] in ("arrI32", "arrF32"):
+                # an array member has no getter wrapper: read it back through the published accessor
+                acc = "vf_celli" if st["data_kind"] == "arrI32" else "vf_cellf"
+                h = self.view(st["this"], "K0")
+                return {"rb": [self.method_get("K0_%d" % self.fam, acc, h, i) for i in range(len(st["args"][0]))]}
             if fk == "setter":
                 got, _ = self.element_get("K0_%d" % self.fam, "d_" + st["data_kind"], self.view(st["this"], "K0"))
                 if st["data_kind"] == "objPtr":
                     got = self.find_slot(got, "K0")
                 return {"rb": got}
+            if fk == "opIndexRef":
+                root = "KB" if s["cls"] == "KB" else "K0"
+                return {"rb": self.method_get("%s_%d" % (root, self.fam), "vf_item", self.view(st["this"], root), st["item"])}
+            if fk == "getter" and s["ret"] == "arrObj":
+                if not raw:
+                    raise DriveError("getter of the object array returned null")
+                got, _ = self.element_get("KB_%d" % self.fam, "bst", raw)
+                return got
             if rk == "objVal":
                 if not raw:
                     raise DriveError("wrapper returned null for an object returned by value")
